@@ -108,3 +108,78 @@ Proof.
     unfold LiftFullReport.stmt_ir_metas;
     [exact (in_map (fun s => lift_meta (Ast.stmt_meta s)) _ _ H1)|exact (in_map (fun s => lift_meta (Ast.stmt_meta s)) _ _ H2)].
 Qed.
+
+(* ---- fourth audit: the content-level provenance joined with the ids the walk meets ---- *)
+Lemma ast_meta_eqb_true a b : LiftFullReport.ast_meta_eqb a b = true -> a = b.
+Proof.
+  unfold LiftFullReport.ast_meta_eqb. destruct a as [s1 e1 f1], b as [s2 e2 f2]. simpl.
+  rewrite !andb_true_iff. intros [[H1 H2] H3]. apply N.eqb_eq in H1, H2. subst.
+  destruct f1, f2; try discriminate; [apply N.eqb_eq in H3; by subst|done].
+Qed.
+
+Lemma ast_meta_eqb_refl a : LiftFullReport.ast_meta_eqb a a = true.
+Proof.
+  unfold LiftFullReport.ast_meta_eqb. destruct a as [s e f]. simpl. rewrite !N.eqb_refl. destruct f; simpl; [apply N.eqb_refl|done].
+Qed.
+
+Lemma metas_distinct_b_NoDup l : LiftFullReport.metas_distinct_b l = true -> NoDup l.
+Proof.
+  induction l as [|x l IH]; simpl; [constructor|]. rewrite andb_true_iff, negb_true_iff. intros [H1 H2].
+  constructor; [|auto]. intros Hin. try apply elem_of_list_In in Hin.
+  assert (existsb (LiftFullReport.ast_meta_eqb x) l = true); [|congruence].
+  apply existsb_exists. exists x. split; [exact Hin|apply ast_meta_eqb_refl].
+Qed.
+
+Lemma stmt_metas_distinct_b_sound body :
+  LiftFullReport.stmt_metas_distinct_b body = true -> NoDup (map Ast.stmt_meta (lifted_stmts body)).
+Proof. apply metas_distinct_b_NoDup. Qed.
+
+Lemma Forall2_In_r {A B} (R : A -> B -> Prop) l k y : Forall2 R l k -> In y k -> exists x, In x l /\ R x y.
+Proof.
+  induction 1 as [|a b l k Hab _ IH]; intros Hin; [destruct Hin|].
+  destruct Hin as [<-|Hin]; [exists a; split; [by left|done]|].
+  destruct (IH Hin) as (x & Hx & HR). exists x. split; [by right|done].
+Qed.
+
+Lemma NoDup_map_eq {A B} (f : A -> B) l a b : NoDup (map f l) -> In a l -> In b l -> f a = f b -> a = b.
+Proof.
+  induction l as [|x l IH]; intros Hn Ha Hb E; [destruct Ha|]. simpl in Hn. inversion Hn as [|? ? Hx Hn']; subst. clear Hn; rename Hn' into Hn.
+  destruct Ha as [->|Ha], Hb as [->|Hb]; [done| | |by apply IH].
+  - exfalso. apply Hx. rewrite E. first [apply elem_of_list_In; by apply in_map|by apply in_map].
+  - exfalso. apply Hx. rewrite <- E. first [apply elem_of_list_In; by apply in_map|by apply in_map].
+Qed.
+
+Lemma in_map_meta (l l' : list Ast.statement) s' :
+  map Ast.stmt_meta l' = map Ast.stmt_meta l -> In s' l' -> exists s, In s l /\ Ast.stmt_meta s = Ast.stmt_meta s'.
+Proof.
+  intros E Hin. apply (in_map Ast.stmt_meta) in Hin. rewrite E in Hin. apply in_map_iff in Hin as (s & Hs & Hi). by exists s.
+Qed.
+
+Theorem liftfull_walk_statements_are_images : forall key kind params pfile ploc body r,
+  try_lift_impl kind params pfile ploc body = Ok r ->
+  NoDup (map Ast.stmt_meta (lifted_stmts body)) ->
+  key_injective_on key body ->
+  exists body',
+    ensure_unique_variables params pfile ploc body = Ok (body', l_reports r) /\
+    renamed_only body body' /\
+    (forall ds, exists n0, forall n, n0 <= n ->
+       trace (skel key body) ds `prefix_of` walk n (map (skel_block key) (xc_blocks (l_cfg r))) ds) /\
+    (forall x s', In x (graph_stmts (xc_blocks (l_cfg r))) -> In s' (lifted_stmts body') ->
+       key (xstmt_meta x) = key (lift_meta (Ast.stmt_meta s')) ->
+       Spec.LiftFullSpec.image (xc_decls (l_cfg r)) s' x).
+Proof.
+  intros key kind params pfile ploc body r H Hnd Hinj.
+  destruct (liftfull_content_provenance _ _ _ _ _ _ H) as (body' & Hu & Hren & F).
+  exists body'. split; [exact Hu|]. split; [exact Hren|]. split.
+  - intros ds. exact (cfg_contains_source _ _ ds (liftfull_skeleton key kind params pfile ploc body r H)).
+  - intros x s' Hx Hs' Hk. destruct Hren as (_ & _ & Hm).
+    destruct (Forall2_In_r _ _ _ x F Hx) as (sk & Hsk & Himg).
+    assert (Ex : xstmt_meta x = lift_meta (Ast.stmt_meta sk)).
+    { pose proof (image_hdr _ _ _ Himg) as E. apply (f_equal snd) in E. exact E. }
+    destruct (in_map_meta _ _ sk Hm Hsk) as (a & Ha & Ea).
+    destruct (in_map_meta _ _ s' Hm Hs') as (b & Hb & Eb).
+    assert (Eab : Ast.stmt_meta a = Ast.stmt_meta b).
+    { apply Hinj; [exact Ha|exact Hb|]. rewrite Ea, Eb, <- Ex. exact Hk. }
+    assert (sk = s') as <-; [|exact Himg].
+    apply (NoDup_map_eq Ast.stmt_meta (lifted_stmts body')); [by rewrite Hm|exact Hsk|exact Hs'|congruence].
+Qed.
